@@ -114,7 +114,7 @@ Init ==
                         t \in {<<>>, <<1, <<0, 0, 2>>>>, <<2, <<5, 0, 0>>>>}, w \in BOOLEAN}
      \/ /\ Mode = "ctor" /\ center = <<0, 0, 0>>
         /\ shape \in {[what |-> w, rsign |-> rs, clen |-> cl, member |-> mk, rform |-> rf] :
-                        w \in {"Sphere", "Spheres"}, rs \in {-1, 0, 1}, cl \in {0, 2, 3, 4, 13},   \* 13: three numbers as a 1 x 3 nested list
+                        w \in {"Sphere", "Spheres"}, rs \in {-1, 0, 1}, cl \in {0, 2, 3, 4, 13, 31},   \* 13 / 31: three numbers as a 1 x 3 / 3 x 1 nested list
                         mk \in {"sphere", "ellipsoid", "number"},
                         \* how the radius is written: one number, or the radii of two layers (one of
                         \* them carrying the sign) as a list, tuple or array
